@@ -170,7 +170,11 @@ func genJSON(r *vh.Rand) string {
 		}
 		es = append(es, genEntry(r, tag, nm))
 	}
-	return fmt.Sprintf("json %s %s %d %d %d %d %s", mode, vh.B(r.Chance(1, 2)), r.Range(0, 3), ninst,
+	modeR := mode
+	if r.Chance(1, 3) {
+		modeR += "r" // reflection served on another port
+	}
+	return fmt.Sprintf("json %s %s %d %d %d %d %s", modeR, vh.B(r.Chance(1, 2)), r.Range(0, 3), ninst,
 		r.PickInt([]int{0, 0, 2000, 5000, 40000}), n, strings.Join(es, " "))
 }
 
@@ -191,6 +195,11 @@ func genTmpl(r *vh.Rand, pp string) string {
 		}
 	}
 	return b.String()
+}
+
+// tags are labels of samples, not identities: several distinct calls may share one or have none
+func tagFor(r *vh.Rand, i int) string {
+	return r.Pick([]string{"", "t", "t", "same", fmt.Sprintf("tg%d", i), fmt.Sprintf("tg%d", i)})
 }
 
 func genScen(r *vh.Rand) string {
@@ -260,7 +269,7 @@ func genScen(r *vh.Rand) string {
 			fs = append(fs, `"zzz": 1`)
 		}
 		pl := vh.HexS("{" + strings.Join(fs, ", ") + "}")
-		defs = append(defs, fmt.Sprintf("%s;%s;%s;%s;%s;%s", vh.HexS(name), vh.HexS(fmt.Sprintf("tg%d", i)), vh.HexS(call), meta, pl, vh.B(i == 0)))
+		defs = append(defs, fmt.Sprintf("%s;%s;%s;%s;%s;%s", vh.HexS(name), vh.HexS(tagFor(r, i)), vh.HexS(call), meta, pl, vh.B(i == 0)))
 	}
 	ns := r.Range(1, 2)
 	sperm := r.Intn(len(scenNames))
@@ -272,7 +281,11 @@ func genScen(r *vh.Rand) string {
 		}
 		scens = append(scens, vh.HexS(scenNames[(sperm+i)%len(scenNames)])+":"+strings.Join(steps, "."))
 	}
-	return fmt.Sprintf("scen %d %d %s %s %s %s", ninst, r.PickInt([]int{0, 0, 3000, 20000}), strings.Join(order, ","),
+	refl := ""
+	if r.Chance(1, 4) {
+		refl = "r"
+	}
+	return fmt.Sprintf("scen %d%s %d %s %s %s %s", ninst, refl, r.PickInt([]int{0, 0, 3000, 20000}), strings.Join(order, ","),
 		strings.Join(users, ","), strings.Join(defs, "|"), strings.Join(scens, "|"))
 }
 
@@ -285,7 +298,7 @@ func genLong(r *vh.Rand) string {
 	for i := 0; i < n; i++ {
 		es = append(es, genEntry(r, fmt.Sprintf("t%d", i), len(methods)))
 	}
-	return fmt.Sprintf("json d %s %d %d %d %d %s", vh.B(r.Chance(1, 2)), r.Range(0, 3), r.Range(1, 4),
+	return fmt.Sprintf("json %s %s %d %d %d %d %s", r.Pick([]string{"d", "dr"}), vh.B(r.Chance(1, 2)), r.Range(0, 3), r.Range(1, 4),
 		r.PickInt([]int{0, 2000}), n, strings.Join(es, " "))
 }
 
